@@ -154,9 +154,6 @@ func fmtVal(v []byte) string {
 
 func fmtKey(k []byte) string {
 	if len(k) == 0 {
-		if k == nil {
-			return "nil"
-		}
 		return "-"
 	}
 	return hex.EncodeToString(k)
